@@ -119,6 +119,12 @@ func (e *Envelope) Sign(key Key) error {
 		return err
 	}
 
+	// SignPayload returns a new envelope that carries the new signature only.
+	// Keep the signatures that are already present, like Metablock.Sign does.
+	signatures := make([]dsse.Signature, 0, len(e.envelope.Signatures)+len(env.Signatures))
+	signatures = append(signatures, e.envelope.Signatures...)
+	env.Signatures = append(signatures, env.Signatures...)
+
 	e.envelope = env
 	return nil
 }
